@@ -35,3 +35,10 @@ func PruneActionForVerif(
 	}
 	return nil
 }
+
+// NewHttpPushServiceForVerif returns a fresh instance of the service that keeps
+// one HTTP pusher running per push subscription, so that a verification
+// harness can run it (Initialize, Start, Cleanup) against its own database.
+func NewHttpPushServiceForVerif() Service {
+	return &httpPusher{}
+}
